@@ -244,9 +244,11 @@ func newReadSession(e *env, c Case) *session {
 
 // ---------------------------------------------------------------- ReadSector at an unaligned offset
 
-// The client sends a read whose offset is not a multiple of the leaf size (the request validation
-// only wants offset+length aligned).  The reference host refuses it; a host can also answer with the
-// enclosing leaf-aligned range and its valid proof (fault resp.All:otherRange).
+// A read whose offset is not a multiple of the leaf size (core's request validation only wants
+// offset+length aligned).  The only correct outcome is an error: the client refuses it without
+// dialing (rpc.go since ff651f4); the reference host would refuse it too.  A host could also answer
+// with the enclosing leaf-aligned range and its valid proof (fault resp.All:otherRange): a client
+// that dials and accepts that delivers other bytes than requested.
 var unalignedVariants = []readParams{
 	{0, 32, 32},
 	{1, 100, 28},
@@ -903,9 +905,10 @@ func newFreeSession(e *env, c Case) *session {
 
 // ---------------------------------------------------------------- FreeSectors with an index out of range
 
-// The caller names a sector index the contract does not have.  The client sends the request
-// unchecked; the reference host refuses it; a host can also answer with a valid proof of the old
-// root for the in-range part and any new root (fault resp.All:otherRange).
+// The caller names a sector index the contract does not have.  The only correct outcome is an
+// error: the client refuses without dialing (rpc.go since 60c450d); the reference host would refuse
+// too.  A host could also answer with a valid proof of the old root for the in-range part and any
+// new root (fault resp.All:otherRange): a client that dials and trusts that panics in core.
 var freeOORVariants = [][]uint64{{9}, {5}, {2, 7}, {100, 101}}
 
 func newFreeOutOfRangeSession(e *env, c Case) *session {
